@@ -96,7 +96,20 @@ def generate(seed: int, tier: str, index: int) -> dict:
         spec["actors"] = c17.generate_burst(seed, tier, index)["actors"]
     else:
         spec["world"] = {"variant": "full"}
-        spec["actors"] = [gen_inject(rng) if rng.random() < 0.7 else gen_inject_time(rng, spec["t0_us"])]
+        if rng.random() < 0.55:
+            first = gen_inject(rng)
+            spec["actors"] = [first]
+            if rng.random() < 0.4:
+                # a second player with its own cookie jar asks for the same injected errors: the count of failures
+                # is kept per client session, the two must not disturb each other
+                second = json.loads(json.dumps(first))
+                second["id"] = "inj2"
+                second["prng"] = rng.getrandbits(32)
+                second["script"] = [st for st in second["script"] if st["op"] == "get"]
+                second.pop("faults", None)
+                spec["actors"].append(second)
+        else:
+            spec["actors"] = [gen_inject_time(rng, spec["t0_us"])]
     return spec
 
 
